@@ -7,6 +7,24 @@ PENDING = "check not built yet in this session (construction order: DESIGN.md se
 NOT_APPLICABLE = {("C%02d" % i): PENDING for i in range(1, 21)}
 
 TEXT = {
+    "C12": {
+        "text": "Proved: MarshalJSON succeeds exactly when Pack does, every object lists its keys in the StringsByInt order of its key set regardless of map order, and the message object's keys are the presence set. The JSON text itself (escaping, numbers, hex) is compared byte for byte with the library on histories with arbitrary byte values; validity, key order, the decode round trip and identical re-pack are checked by the oracle (partial: no theorem yet for syntactic validity and the decode round trip).",
+        "design_ref": "DESIGN.md section 6 C12",
+        "note": 'Trusted: Coq kernel, hand-written model (Model/Message.v, Model/Json.v, Model/MessageOps.v) validated by correspondence on every run, extraction/driver, Go harness and property oracle.',
+        "technique": "Rocq theorems over a Gallina model + differential correspondence + property oracle",
+    },
+    "C14": {
+        "text": 'Theorems quantified over every message state (hence every point of every operation sequence): the bits of the packed bitmap, continuation bits aside, are exactly the ids GetFields reports; JSON is built from the same set and succeeds iff Pack does; Pack/JSON do not change values or the set; UnsetField removes the id and resets the whole nested state. The model of all operations is compared with the library after every step of random and exhaustive short histories; the oracle compares the observers on the library and checks that no stale data resurfaces.',
+        "design_ref": "DESIGN.md section 6 C14",
+        "note": 'Trusted: Coq kernel, hand-written model (Model/Message.v, Model/Json.v, Model/MessageOps.v) validated by correspondence on every run, extraction/driver, Go harness and property oracle.',
+        "technique": "Rocq theorems over a Gallina model + differential correspondence + property oracle",
+    },
+    "C15": {
+        "text": 'Proved: Pack walks the unique ascending arrangement of the presence set whatever the map order (likewise subfield tags), Pack/JSON are pure on values and presence, padders and encoders build results in fresh buffers. Pointer-level claims (clone shares no state, no write to caller memory) cannot be expressed in the functional model and are checked by the oracle on the library by mutating both sides and by sentinel-filled spare capacity (partial).',
+        "design_ref": "DESIGN.md section 6 C15",
+        "note": 'Trusted: Coq kernel, hand-written model (Model/Message.v, Model/Json.v, Model/MessageOps.v) validated by correspondence on every run, extraction/driver, Go harness and property oracle.',
+        "technique": "Rocq theorems over a Gallina model + differential correspondence + property oracle",
+    },
     "C01": {
         "text": 'Round trip (same state, exact consumption with arbitrary trailing bytes, arbitrary prior state, identical re-pack) is a theorem for every primitive field over all encodings, the 43 prefixers and paddings; composites of all four modes and whole messages are covered by the recursive model pack_f/unpack_f/m_pack/m_unpack, which is compared with the library on generated specs nested to depth 3 and whose general round-trip theorem is stated but not yet proved (partial).',
         "design_ref": "DESIGN.md section 6 C01",
